@@ -39,8 +39,8 @@ CHECKS = {
   'technique': 'Coq proof over loop-nest IR generated from the source + PrimFloat model/implementation correspondence',
  },
  'C08': {
-  'text': 'Coq theorems over any *-ring (one spatial axis, arbitrary batch shape, multi-channel, any stride, both modes): the model of _convolve over the recorded scipy specs equals y[b,c,p] = sum_i sum_t data[b,i,p*s+off-t] filt[c,i,t] with off = 0 / min(m,n)-1 and the advertised lengths; convolve_data_adjoint and convolve_filter_adjoint (zero-stuffing + correlate in the coded adjoint_mode) are the exact adjoints and return the requested shapes; inadmissible shape/stride/channel combinations are rejected. Exact Gaussian-integer correspondence for D = 1..3 incl. a malformed stream and the scipy specs themselves.',
-  'note': 'Trusted: Coq kernel+vm_compute; scipy.signal convolve/correlate specs (Gallina definitions, checked against the real scipy each run). D = 2,3 and multi_channel=False are tied by exact correspondence to the N-D closed form, not proved. No axioms.',
+  'text': 'Coq theorems over any *-ring for ANY number D >= 1 of spatial axes (induction over the axes), arbitrary batch shape, multi_channel both ways, any strides, both modes: the model of _convolve over the recorded scipy specs equals y[b,c,p] = sum_i sum_{t in box} data[b,i,p*s+off-t] filt[c,i,t] with per-axis off = 0 / min(m,n)-1 and the advertised lengths; convolve_data_adjoint and convolve_filter_adjoint (zero-stuffing + correlate in the coded adjoint_mode) are the exact adjoints and return the requested shapes; inadmissible combinations are rejected. Exact Gaussian-integer correspondence for D = 1..3 incl. a malformed stream and the scipy specs themselves.',
+  'note': 'Trusted: Coq kernel+vm_compute; scipy.signal convolve/correlate specs (Gallina definitions, checked against the real scipy each run). No axioms.',
   'technique': 'Coq proof (kernel operators + kernel_adjoint) + exact integer model/implementation correspondence',
   'design_ref': 'DESIGN.md §3 C08, notes/C06_C08.md',
  },
@@ -56,14 +56,14 @@ CHECKS = {
   'design_ref': 'DESIGN.md §3 C10, notes/C05_C10.md',
  },
  'C11': {
-  'text': 'Coq theorems over R (real and complex elements in one generic proof): a point satisfying the prox variational inequality is THE strict minimiser; soft threshold (scalar/array lamda, any length) is that minimiser; hard threshold = documented map; clip, l2-ball (incl. boundary, zero), l-infinity (with bias) are Euclidean projections; the l1-ball sort/cumsum search returns theta >= 0 with sum(|y|-theta)+ = eps, which characterises the projection, feasible input returned unchanged; L2Reg closed form and proxh composition; Conj (Moreau), Stack (block separable), UnitaryTransform. Model mirrors thresh.py/prox.py line by line and is compared with the implementation on PrimFloat.',
-  'note': 'Trusted: Coq kernel+vm_compute(PrimFloat), stdlib real-number axioms (sig_forall_dec, sig_not_dec, functional_extensionality_dep) as printed per theorem; numpy eigh/sort as oracles (the eigendecomposition the implementation used is checked against its spec inside Coq and passed in). PsdProj: partial (proved from spectral consequences of the eigh spec).',
+  'text': 'Coq theorems over R (real and complex elements in one generic proof): a point satisfying the prox variational inequality is THE strict minimiser; soft threshold (scalar/array lamda, any length) is that minimiser; hard threshold = documented map; clip, l2-ball (incl. boundary, zero), l-infinity (with bias) are Euclidean projections; the l1-ball sort/cumsum search returns theta >= 0 with sum(|y|-theta)+ = eps, which characterises the projection, feasible input returned unchanged; L2Reg closed form and proxh composition; Conj (Moreau), Stack (block separable), UnitaryTransform. PsdProj is the Frobenius projection onto the Hermitian PSD cone for matrices of any size, real and complex (given the eigh spec). Model mirrors thresh.py/prox.py line by line and is compared with the implementation on PrimFloat.',
+  'note': 'Trusted: Coq kernel+vm_compute(PrimFloat), stdlib real-number axioms (sig_forall_dec, sig_not_dec, functional_extensionality_dep) as printed per theorem; numpy eigh/sort as oracles (the eigendecomposition the implementation used is checked against its spec inside Coq and passed in).',
   'technique': 'Coq proof over R of the prox variational inequalities + PrimFloat model/implementation correspondence',
   'design_ref': 'DESIGN.md §3 C11, notes/C11.md',
  },
  'C12': {
-  'text': 'Coq theorems over an arbitrary real inner-product space (A self-adjoint, P absent or self-adjoint positive definite; complex Hermitian systems via the real embedding), for every k, max_iter, tol, x0, b: tracked residual r_k = b - A x_k while k < max_iter (and exactly what is stale after the final update); conjugacy of directions and P-orthogonality of residuals; x_k minimises phi over x0 + span{p_0..p_{k-1}} and over x0 + K_k(PA, P r0) (Krylov optimality), hence the A-norm error never increases; breakdown (pAp <= 0) leaves the state unchanged with done() true, and for PD A happens only when solved. The state machine mirrors __init__/_update attribute by attribute and is compared after every update with the implementation on PrimFloat.',
-  'note': "Trusted: Coq kernel+vm_compute(PrimFloat); stdlib real-number axioms as printed. Finite termination within n steps is validated numerically only. 'Written into the caller's array' is checked dynamically (object identity + contents).",
+  'text': 'Coq theorems over an arbitrary real inner-product space (A self-adjoint, P absent or self-adjoint positive definite; complex Hermitian systems via the real embedding), for every k, max_iter, tol, x0, b: tracked residual r_k = b - A x_k while k < max_iter (and exactly what is stale after the final update); conjugacy of directions and P-orthogonality of residuals; x_k minimises phi over x0 + span{p_0..p_{k-1}} and over x0 + K_k(PA, P r0) (Krylov optimality), hence the A-norm error never increases; the exact solution is reached within n updates in dimension n (dimension hypothesis proved for R^n); breakdown (pAp <= 0) leaves the state unchanged with done() true, and for PD A happens only when solved. The state machine mirrors __init__/_update attribute by attribute and is compared after every update with the implementation on PrimFloat.',
+  'note': "Trusted: Coq kernel+vm_compute(PrimFloat); stdlib real-number axioms as printed. 'Written into the caller's array' is checked dynamically (object identity + contents).",
   'technique': 'Coq proof over an abstract inner-product space (invariants by induction over updates) + PrimFloat trajectory correspondence',
   'design_ref': 'DESIGN.md §3 C12, notes/C12_C15.md',
  },
@@ -80,8 +80,8 @@ CHECKS = {
   'design_ref': 'DESIGN.md §3 C14, notes/C14.md',
  },
  'C15': {
-  'text': 'Coq theorems: `while not done: update` performs min(max_iter, first stopping k) updates and iter counts them, for every max_iter (0 and negative included) and any interleaving of extra done() calls; with tol = 0 an early stop is a genuine fixed point for GradientMethod (non-accelerated and, after the repair, accelerated — unconditional), CG (rz = 0 => solved) and PDHG with scalar steps (resid = 0 => neither x nor u moved); power-iteration estimates are non-decreasing and <= L once normalised. The driver model must reproduce every done() answer, iter value and update count of 15 algorithm kinds under random interleavings.',
-  'note': 'Trusted: Coq kernel+vm_compute; stdlib real-number axioms. Early-stop statements for Newton, GerchbergSaxton, PDHG with array steps / step adaptation are checked by the oracle only (one more update leaves the solution unchanged).',
+  'text': 'Coq theorems: `while not done: update` performs min(max_iter, first stopping k) updates and iter counts them, for every max_iter (0 and negative included) and any interleaving of extra done() calls; with tol = 0 an early stop is a genuine fixed point for GradientMethod (non-accelerated and, after the repair, accelerated — unconditional), CG (rz = 0 => solved) PDHG with scalar or array steps through the step-adaptation branches (resid = 0 => neither x nor u moved), NewtonsMethod and GerchbergSaxton (lamb = 0); power-iteration estimates are non-decreasing and <= L once normalised. The driver model must reproduce every done() answer, iter value and update count of 15 algorithm kinds under random interleavings.',
+  'note': 'Trusted: Coq kernel+vm_compute; stdlib real-number axioms. GerchbergSaxton with lamb != 0 is checked by the oracle only.',
   'technique': 'Coq proof (state-machine induction) + exact history correspondence (counters, flags) + oracle on extra updates',
   'design_ref': 'DESIGN.md §3 C15, notes/C12_C15.md',
  },
@@ -103,8 +103,8 @@ CHECKS = {
   'design_ref': 'DESIGN.md §3 C18, notes/C17_C18.md',
  },
  'C19': {
-  'text': 'Coq theorems over R: SU(2) step identity and its product over ANY waveform; exact unitarity of abrm_hp, blochsim, abrm_ptx; exact product formula and bounds for abrm/abrm_nd with the epsilon regulariser (=1 at eps=0); zero RF => b = 0; composition as ordered SU(2) product (abrm_nd full, abrm_hp/blochsim per-sample loop: partial); ab2rf peeling recursion inverts the forward hard-pulse polynomials (final angle conversion: partial). One model over an ops record + trig oracle, run on PrimFloat with cos/sin tables keyed by the angle the model computes.',
-  'note': 'Trusted: Coq kernel+vm_compute(PrimFloat), stdlib real-number axioms; numpy cos/sin/exp values supplied as data; b2a/mag2mp minimum-phase numerics and abrm_ptx zero-RF/composition are validated numerically only.',
+  'text': 'Coq theorems over R: SU(2) step identity and its product over ANY waveform; exact unitarity of abrm_hp, blochsim, abrm_ptx; exact product formula and bounds for abrm/abrm_nd with the epsilon regulariser; zero RF => b = 0; composition of back-to-back waveforms for abrm_nd, abrm_hp, blochsim (including the closing total-phase factor) and abrm_ptx; ab2rf inverts the forward hard-pulse (SLR) recursion for |theta_j| < pi with atan2/angle defined from atan; hard-pulse simulation of the designed pulse evaluates the forward SLR polynomials (|a| = |A|, |b| = |B|). One model over an ops record + trig oracle, run on PrimFloat with cos/sin tables keyed by the angle the model computes.',
+  'note': "Trusted: Coq kernel+vm_compute(PrimFloat), stdlib real-number axioms; numpy cos/sin/exp values supplied as data. Partial: SLR realisability for arbitrary (A,B) on the unit circle, b2a/mag2mp minimum-phase numerics (validated numerically), abrm's length-dependent gradient (loop-level composition only).",
   'technique': 'Coq proof over R (induction over waveforms) + PrimFloat model/implementation correspondence',
   'design_ref': 'DESIGN.md §3 C19, notes/C19_C20.md',
  },
